@@ -76,6 +76,14 @@ def plan(tier, seed):
                                "+ tail, heads %r, k in (2,5), tails ('', '[O][N][=C]')" % (INDEX_HEADS,)})
         for head in INDEX_HEADS:
             tasks.append((name, ("index", tn, head)))
+    # the parametric families of C01 (ring counts, rings open at once, rings across fragments, nesting, budgets), here
+    # compared with the model; members with >= 100 ring bonds are left to C01 (its known ring-label finding)
+    from mc.props import c01
+    for fi, (fname, table, members) in enumerate(c01.families(tier)):
+        name = "family/%s/%s" % (fname, table if isinstance(table, str) else "huge")
+        scopes.append({"name": name, "members": len(members), "table": table})
+        for k in range(0, len(members), 20):
+            tasks.append((name, ("family", fi, k, k + 20, tier)))
     return {"scopes": scopes, "tasks": tasks,
             "bounds": {"max_L": max(g[2] for g in grid), "alphabets": {k: len(v) for k, v in ALPHABETS.items()}}}
 
@@ -127,6 +135,32 @@ def run(task):
             last = (w, got)
         if last is not None:
             r.sample({"scope": scope, "selfies": "".join(last[0]), "decoder": last[1][1] if last[1][0] == "ok" else last[1][0]}, 1)
+    elif arg[0] == "family":
+        from mc.props import c01
+        _, fi, lo, hi, tier = arg
+        fname, table, members = c01.families(tier)[fi]
+        if isinstance(table, str):
+            t = use_table(table)
+        else:
+            _SF.set_semantic_constraints(dict(table))
+            _CUR[0] = None
+            t = dict(table)
+        for label, s_ in members[lo:hi]:
+            if len(s_) > 30000:
+                continue
+            w = tuple(misc.tokenize(s_))
+            if fname.startswith("rings-") and sum(1 for x in w if "Ring" in x) >= 198:
+                continue
+            try:
+                from mc.oracles import refmodel
+                m = refmodel.decode(w, t)
+                if sum(len(x) for x in m.ringnbrs) // 2 >= 100:
+                    continue
+            except refmodel.Reject:
+                pass
+            check_tokens(w, t, trace, r)
+        if lo == 0:
+            r.sample({"scope": scope, "member": members[0][0], "selfies": members[0][1][:100]}, 1)
     else:
         _, tn, head = arg
         table = use_table(tn)
